@@ -3,16 +3,19 @@
 (* The driver applies every enabled (class, operator) at every node of that class of every        *)
 (* carrier object (nodes inside extension values, names, keys, CRL entries included).              *)
 EXTENDS Integers, Sequences, FiniteSets, TLC, Json
-TagClasses == {"utf8", "printable", "ia5", "bmp", "teletex", "universal", "integer", "boolean", "oid", "octets", "bits", "null", "time",
+TagClasses == {"utf8", "printable", "ia5", "bmp", "teletex", "universal", "integer", "enumerated", "boolean", "oid", "octets", "bits", "null", "time",
                "context-prim", "sequence", "set", "context-cons"}
 StringClasses == {"utf8", "printable", "ia5", "bmp", "teletex", "universal"}
 Operators == {"drop-last-byte", "drop-first-byte", "empty", "append-c2", "append-e0a0", "append-f0", "last-byte-c2", "set-high-bits", "double-content",
               "retag-utf8", "retag-printable", "retag-ia5", "retag-bmp", "retag-teletex", "retag-universal", "odd-length",
-              "duplicate-node", "delete-node", "delete-first-child", "duplicate-first-child", "reverse-children", "swap-with-next"}
+              "duplicate-node", "delete-node", "delete-first-child", "duplicate-first-child", "reverse-children", "swap-with-next",
+              "all-ff", "min-negative", "max-positive", "all-zero", "inc-last-byte"}
+NumberClasses == {"integer", "enumerated", "boolean"}
 Enabled(c, op) ==
    CASE op \in {"retag-utf8", "retag-printable", "retag-ia5", "retag-bmp", "retag-teletex", "retag-universal"} -> c \in StringClasses /\ op # ("retag-" \o c)
      [] op \in {"append-c2", "append-e0a0", "append-f0", "last-byte-c2", "set-high-bits"} -> c \in StringClasses \cup {"context-prim", "octets"}
      [] op = "odd-length" -> c \in {"bmp", "universal"}
+     [] op \in {"all-ff", "min-negative", "max-positive", "all-zero", "inc-last-byte"} -> c \in NumberClasses
      [] op \in {"delete-first-child", "duplicate-first-child", "reverse-children"} -> c \in {"sequence", "set", "context-cons"}
      [] op \in {"drop-last-byte", "drop-first-byte", "empty", "double-content"} -> c \notin {"sequence", "set", "context-cons", "null"}
      [] OTHER -> TRUE
@@ -25,5 +28,6 @@ Spec == Init /\ [][Next]_x
 PlanSane == /\ \A op \in Operators : \E c \in TagClasses : <<c, op>> \in Plan
             /\ \A c \in TagClasses : \E op \in Operators : <<c, op>> \in Plan
             /\ \A a, b \in StringClasses : a # b => <<a, "retag-" \o b>> \in Plan
+            /\ \A c \in NumberClasses : <<c, "all-ff">> \in Plan /\ <<c, "min-negative">> \in Plan
 Export == PrintT(ToJson([plan |-> Plan]))
 =============================================================================
